@@ -279,3 +279,104 @@ def _hc_answer():
             raise Notify(6, 0, 'answering') from None
 
     return _with_patch(Peer, '_main', main, lambda: received_notification('ESTABLISHED', 6, 2, b''))
+
+
+# ---------------------------------------------------------------------------------------------------------------------
+# raise-site table: a STATIC obligation over every place in the repository's source where a Notify / NotifyError is
+# constructed with literal code and subcode (scanned from the AST of the current tree on every run): the code must be the
+# RFC 4271 section 6 class of the layer the site lives in.  Complete for those sites; says nothing about reachability and
+# nothing about the 4 sites that forward a code they were given.
+SITE_CLASSES = [
+    # (path prefix, allowed (code, subcode or None) set, exceptions {(qualname, code, sub): reason})
+    ('bgp/message/update/', {(3, None)}, {
+        ('UpdateCollection.split', 1, 2): 'an UPDATE shorter than its own length fields: a length error of the message (RFC 4271 6.1)',
+        ('Attribute.klass', 2, 4): 'only reached for a (type, flags) pair AttributeCollection.unpack has already found registered (C08 contract): unreachable from decoding',
+        ('Attribute.unpack', 2, 4): 'same guard as Attribute.klass: unreachable from decoding',
+    }),
+    ('bgp/message/open/', {(2, None)}, {('Open.unpack_message', 1, 2): 'an OPEN shorter than its fixed part: message length error (RFC 4271 6.1)'}),
+    ('bgp/message/refresh.py', {(7, None)}, {}),
+    ('bgp/message/keepalive.py', {(1, 2)}, {}),
+    ('bgp/message/operational.py', {(5, None), (1, None)}, {}),
+    ('bgp/message/message.py', {(1, 3)}, {('Message.klass', 2, 4): 'only called with a type Message.unpack has already found registered: unreachable from decoding'}),
+    ('bgp/timer.py', {(4, 0), (2, 6)}, {}),
+    ('reactor/keepalive.py', {(4, 0)}, {}),
+    ('reactor/network/connection.py', {(1, 1), (1, 2)}, {}),
+    ('reactor/protocol.py', {(1, 3), (1, 0), (5, 1), (5, 2)}, {}),
+    ('reactor/peer/peer.py', {(5, 1), (6, None)}, {}),
+]
+SITE_FUNCTIONS = {
+    # per-function narrowing where the RFC names one subcode
+    ('reactor/protocol.py', 'Protocol.read_open'): {(5, 1)},
+    ('reactor/protocol.py', 'Protocol.read_keepalive'): {(5, 2)},
+    ('reactor/peer/peer.py', 'Peer._read_open'): {(5, 1)},
+    ('reactor/peer/peer.py', 'Peer._main'): {(6, None)},
+}
+
+
+def notify_sites():
+    import ast
+    import os
+
+    root = os.path.join(os.environ.get('PYVC_REPO', '/repo'), 'src', 'exabgp')
+    out = []
+    for dp, _dn, fns in os.walk(root):
+        for f in fns:
+            if not f.endswith('.py'):
+                continue
+            p = os.path.join(dp, f)
+            rel = os.path.relpath(p, root)
+            if rel == 'bgp/message/notification.py':
+                continue
+            try:
+                tree = ast.parse(open(p).read())
+            except SyntaxError:
+                continue
+
+            def walk(node, qual):
+                for ch in ast.iter_child_nodes(node):
+                    q = qual
+                    if isinstance(ch, (ast.FunctionDef, ast.AsyncFunctionDef, ast.ClassDef)):
+                        q = (qual + '.' if qual else '') + ch.name
+                    if isinstance(ch, ast.Call):
+                        name = ch.func.id if isinstance(ch.func, ast.Name) else ch.func.attr if isinstance(ch.func, ast.Attribute) else None
+                        if name in ('Notify', 'NotifyError') and len(ch.args) >= 2:
+                            c = ch.args[0].value if isinstance(ch.args[0], ast.Constant) else None
+                            s = ch.args[1].value if isinstance(ch.args[1], ast.Constant) else None
+                            out.append((rel, qual, c, s, ch.lineno))
+                    walk(ch, q)
+
+            walk(tree, '')
+    return out
+
+
+@bounded('C10', 'raise-site-table')
+def raise_site_table(tier, seed):
+    sites = notify_sites()
+    fails, evals, forwarded, excepted = [], 0, [], []
+    for rel, qual, c, s, line in sites:
+        if c is None:
+            forwarded.append(f'{rel}:{qual}:{line}')
+            continue
+        evals += 1
+        rule = next((r for r in SITE_CLASSES if rel.startswith(r[0])), None)
+        inp = {'file': rel, 'function': qual, 'line': line, 'code': c, 'subcode': s}
+        if rule is None:
+            fails.append({'what': f'a NOTIFICATION {c}/{s} is raised in {rel} ({qual}), a place with no error class assigned', 'input': inp})
+            continue
+        allowed = SITE_FUNCTIONS.get((rel, qual), rule[1])
+        if any(c == a and (b is None or s == b) for a, b in allowed):
+            continue
+        if (qual, c, s) in rule[2]:
+            excepted.append(f'{rel}:{qual} {c}/{s}: {rule[2][(qual, c, s)]}')
+            continue
+        want = ' or '.join(f'{a}/{b if b is not None else "x"}' for a, b in sorted(allowed, key=str))
+        fails.append({'what': f'{rel} {qual} (line {line}) raises NOTIFICATION {c}/{s}; errors detected there are of class {want} (RFC 4271 section 6)', 'input': inp})
+    if evals < 200:
+        raise RuntimeError(f'raise-site scan found only {evals} sites: the scan no longer sees the source')
+    return {'evaluations': evals, 'distinct_nontrivial': evals, 'bound': f'STATIC and complete for what it covers: all {evals} places where Notify / NotifyError is built with a literal code (AST scan of the current tree), each against the error class of its layer; {len(forwarded)} sites forward a code they were given and are not decided: {forwarded}; listed exceptions met: {excepted}', 'rule': 'one case = one raise site', 'samples': [{'file': sites[0][0], 'function': sites[0][1], 'code': sites[0][2]}], 'failures': fails}
+
+
+@replayer('C10', 'raise-site-table')
+def _replay_sites(f):
+    r = raise_site_table('quick', 1)
+    return not any(x['input']['file'] == f['input']['file'] and x['input']['function'] == f['input']['function'] and x['input']['code'] == f['input']['code'] and x['input']['subcode'] == f['input']['subcode'] for x in r['failures'])
